@@ -1856,20 +1856,29 @@ fn macro_case_list() -> Vec<MacroCase> {
 
 /// an item tree in one line (names, nesting, order, number of parameters,
 /// type labels, import paths) — from the harness's tree and from the hook's dump
-fn tree_line(items: &[It]) -> String {
+fn join_items(mut v: Vec<String>, sorted: bool) -> String {
+    if sorted {
+        v.sort();
+    }
+    v.join(" ")
+}
+fn use_line(paths: &[Vec<String>], sorted: bool) -> String {
+    format!("use {}", join_items(paths.iter().map(|p| p.join("::")).collect(), sorted).replace(' ', "+"))
+}
+fn tree_line(items: &[It], sorted: bool) -> String {
     let ty = |t: &TyRef| t.map(|i| format!("M{i}")).unwrap_or_else(|| "u64".into());
-    items.iter().map(|it| match it {
-        It::Module { name, ch } => format!("mod {name}[{}]", tree_line(ch)),
+    join_items(items.iter().map(|it| match it {
+        It::Module { name, ch } => format!("mod {name}[{}]", tree_line(ch, sorted)),
         It::Type { name, m } => format!("type {name}:M{m}"),
         It::Fn { name, shape, .. } => format!("fn {name}/{}", match shape { Shape::S0 | Shape::S3(_) => 0, Shape::S4(_) => 2, _ => 1 }),
         It::Const { name, ty: t, .. } => format!("const {name}:{}", ty(t)),
-        It::Impl { ty: t, ch } => format!("impl {}[{}]", ty(t), tree_line(ch)),
-        It::Use { paths } => format!("use {}", paths.iter().map(|p| p.join("::")).collect::<Vec<_>>().join("+")),
-    }).collect::<Vec<_>>().join(" ")
+        It::Impl { ty: t, ch } => format!("impl {}[{}]", ty(t), tree_line(ch, sorted)),
+        It::Use { paths } => use_line(paths, sorted),
+    }).collect(), sorted)
 }
-fn dump_line(v: &J) -> String {
-    let kids = |v: &J| v["ch"].as_array().map(|a| dump_line(&J::Array(a.clone()))).unwrap_or_default();
-    v.as_array().map(|a| a.iter().map(|it| {
+fn dump_line(v: &J, sorted: bool) -> String {
+    let kids = |v: &J| v["ch"].as_array().map(|a| dump_line(&J::Array(a.clone()), sorted)).unwrap_or_default();
+    v.as_array().map(|a| join_items(a.iter().map(|it| {
         if let Some(n) = it["mod"].as_str() {
             format!("mod {n}[{}]", kids(it))
         } else if let Some(n) = it["type"].as_str() {
@@ -1881,9 +1890,9 @@ fn dump_line(v: &J) -> String {
         } else if let Some(t) = it["impl"].as_str() {
             format!("impl {t}[{}]", kids(it))
         } else {
-            format!("use {}", dump_use_paths(it).iter().map(|p| p.join("::")).collect::<Vec<_>>().join("+"))
+            use_line(&dump_use_paths(it), sorted)
         }
-    }).collect::<Vec<_>>().join(" ")).unwrap_or_default()
+    }).collect(), sorted)).unwrap_or_default()
 }
 fn dump_use_paths(it: &J) -> Vec<Vec<String>> {
     it["use"].as_array().map(|a| a.iter().map(|p| p.as_array().map(|q| q.iter().map(|x| x.as_str().unwrap_or("?").to_string()).collect()).unwrap_or_default()).collect()).unwrap_or_default()
@@ -1940,7 +1949,12 @@ fn macro_cases(rep: &mut Report, drv: &mut Driver, only: Option<&str>) {
                 }
                 // the macro's expansion vs the property's reading
                 let got = emitted.get(k).cloned();
-                if got != want {
+                let sorted = |x: &Option<Vec<Vec<String>>>| x.clone().map(|mut v| { v.sort(); v });
+                if got != want && sorted(&got) == sorted(&want) {
+                    // the same paths in another order: registration does not depend on it (the property
+                    // holds), but the source no longer does what the model says
+                    rep.mismatch(&format!("{note}: the `use` item built by library! lists {:?}; the declaration lists {:?} (order)", got, want), input.clone());
+                } else if got != want {
                     rep.violation(
                         &format!("{note}: the `use` item built by library! names {:?}; the declaration names {:?}", got, want),
                         "macro-use-paths",
@@ -1952,14 +1966,15 @@ fn macro_cases(rep: &mut Report, drv: &mut Driver, only: Option<&str>) {
                 rep.violation(&format!("{note}: {} use declarations, {} Use items", decls.len(), emitted.len()), "macro-use-paths", input.clone());
             }
         }
-        let (a, b) = (dump_line(&dumped), tree_line(&tree));
+        // (a wrong `use` path is reported above; here the tree apart from what the uses say)
+        let strip = |x: String| if uses.is_some() { x.split(' ').filter(|w| !w.starts_with("use") && !w.contains("::")).collect::<Vec<_>>().join(" ") } else { x };
+        let (a, b) = (strip(dump_line(&dumped, true)), strip(tree_line(&tree, true)));
         if a != b {
-            let only_uses_differ = {
-                let strip = |x: &str| x.split(' ').filter(|w| !w.contains("::") && *w != "use").collect::<Vec<_>>().join(" ");
-                strip(&a) == strip(&b)
-            };
-            if !(only_uses_differ && uses.is_some()) {
-                rep.violation(&format!("{note}: library! built [{a}], written [{b}]"), "macro-item-tree", input.clone());
+            rep.violation(&format!("{note}: library! built [{a}], written [{b}]"), "macro-item-tree", input.clone());
+        } else {
+            let (a, b) = (strip(dump_line(&dumped, false)), strip(tree_line(&tree, false)));
+            if a != b {
+                rep.mismatch(&format!("{note}: library! built [{a}], written [{b}] (order of items)"), input.clone());
             }
         }
         // … and behave the same
@@ -2000,7 +2015,21 @@ fn macro_cases(rep: &mut Report, drv: &mut Driver, only: Option<&str>) {
 
 // ------------------------------------------------------------------ entry points
 
+/// the built-in library is itself registered through `library!` / `Rt::add`: if that fails nothing else can run
+fn runtime_constructible(rep: &mut Report) -> bool {
+    if catch_unwind(|| { let _ = Runtime::new(); }).is_ok() {
+        return true;
+    }
+    let m = PANIC_MSG.lock().map(|g| g.clone()).unwrap_or_default();
+    rep.evaluations += 1;
+    rep.violation(&format!("Runtime::new() panicked (registration of the built-in library): {m}"), "panic runtime-new", json!({"libs": [[]], "note": "Runtime::new()", "index": 0}));
+    false
+}
+
 fn run_range(seed: u64, from: u64, n: u64, rep: &mut Report) {
+    if !runtime_constructible(rep) {
+        return;
+    }
     let mut drv = Driver::spawn().expect("lean driver");
     let fixed = fixed_cases();
     for index in from..from + n {
@@ -2073,6 +2102,10 @@ fn main() {
         Some("replay") => {
             let v: J = serde_json::from_str(&args[2]).expect("json");
             let mut rep = Report::default();
+            if !runtime_constructible(&mut rep) {
+                rep.emit();
+                return;
+            }
             let mut drv = Driver::spawn().expect("lean driver");
             let libs = libs_from_json(&v["libs"]);
             let mut variants = vec![];
